@@ -30,6 +30,10 @@ TStep ==
              /\ GhostReport(<<e.task, e.msg>>, ToSet(e.chans), e.err)
              /\ last' = [op |-> "report", err |-> e.err, ready |-> e.ready, key |-> <<e.task, e.msg>>, targets |-> ToSet(e.targets)]
              /\ (e.fault => e.err)            \* a store error is returned, not swallowed
+          \/ /\ e.op = "par"            \* two concurrent reports of one key; ready = one of them answered "ready"
+             /\ GhostReport(<<e.task, e.msg>>, {e.a, e.b}, FALSE)
+             /\ ~e.err
+             /\ last' = [op |-> "par", err |-> FALSE, ready |-> e.ready, key |-> <<e.task, e.msg>>, targets |-> ToSet(e.targets)]
           \/ /\ e.op = "remove"
              /\ GhostRemove(<<e.task, e.msg>>, e.err)
              /\ last' = [op |-> "remove", err |-> e.err, ready |-> FALSE, key |-> <<e.task, e.msg>>, targets |-> ToSet(e.targets)]
